@@ -79,28 +79,40 @@ struct Obs {
   int32_t sum;
 };
 
+// The checks are written branch-free on everything read back from the result (bitwise &, | and conditional
+// *values* only): the instances run CBMC in path-exploration mode, where every branch on a non-literal value
+// would fork the exploration.  Loop bounds and indices are literals.
+
 // one thread group (t literal in the caller)
 VF_NOINLINE static void scanGroup(const ThreadGroup& tg, int32_t t, int32_t cap, Obs& o) {
   const int32_t n = static_cast<int32_t>(tg.cpus.size());
   vf_check(n >= 1, "thread groups are never empty");
   vf_check(n <= cap, "thread group size <= max(maxGroupSize, largest L2 group)");
   vf_check(n <= kTotal, "a thread group holds at most all L2 CPUs");
+  if (n < 1 || n > kTotal) return;  // (already reported; keeps the reads below inside the vector)
   o.sum += n;
-  bool in[kIds];
-  for (int c = 0; c < kIds; ++c) in[c] = false;
+  int32_t in[kIds];
+  for (int c = 0; c < kIds; ++c) in[c] = 0;
+  int32_t prev = -1;
   for (int32_t i = 0; i < kTotal; ++i) {
-    if (i >= n) break;
-    const int32_t c = tg.cpus[static_cast<size_t>(i)];
-    const bool valid = isL2Cpu(c);
-    vf_check(valid, "thread groups contain only CPUs of the L2 groups");
-    if (!valid) continue;
-    if (i > 0) vf_check(tg.cpus[static_cast<size_t>(i - 1)] < c, "CPUs of a thread group are sorted ascending");
-    o.occ[c] += 1;
-    o.groupOf[c] = t;
-    in[c] = true;
+    const int32_t live = static_cast<int32_t>(i < n);
+    const int32_t c = tg.cpus[static_cast<size_t>(i * live)];
+    int32_t valid = 0;
+    for (int r = 0; r < 2 * kNA; ++r) {
+      if (!isL2Cpu(r)) continue;  // literal
+      const int32_t hit = live & static_cast<int32_t>(c == r);
+      valid |= hit;
+      o.occ[r] += hit;
+      o.groupOf[r] = (t & -hit) | (o.groupOf[r] & ~(-hit));  // hit ? t : old, without a branch
+      in[r] |= hit;
+    }
+    vf_check((1 - live) | valid, "thread groups contain only CPUs of the L2 groups");
+    vf_check((1 - live) | static_cast<int32_t>(prev < c), "CPUs of a thread group are sorted ascending");
+    prev = (c & -live) | (prev & ~(-live));
   }
   for (int c = 0; c < kIds; ++c) {
-    vf_check(tg.affinityMask.contains(c) == in[c], "affinityMask contains exactly the CPUs of its thread group");
+    vf_check(static_cast<int32_t>(tg.affinityMask.contains(c)) == in[c],
+             "affinityMask contains exactly the CPUs of its thread group");
   }
 }
 
@@ -151,8 +163,9 @@ extern "C" void vf_main() {
   }
   for (int a = 0; a < kNA; ++a) {
     for (int b = a + 1; b < kNA; ++b) {
-      if (o.groupOf[2 * a] == o.groupOf[2 * b] && l3of[a] >= 0 && l3of[b] >= 0)
-        vf_check(l3of[a] == l3of[b], "a thread group never mixes two known L3 groups");
+      const int32_t together = static_cast<int32_t>(o.groupOf[2 * a] == o.groupOf[2 * b]) &
+          static_cast<int32_t>(l3of[a] >= 0) & static_cast<int32_t>(l3of[b] >= 0);
+      vf_check((1 - together) | static_cast<int32_t>(l3of[a] == l3of[b]), "a thread group never mixes two known L3 groups");
     }
   }
 }
